@@ -18,7 +18,7 @@ def main():
   from sim.props import c14
   try:
     base = c14._params(plan)
-    params = [np.asarray(p, b.dtype).reshape(b.shape)
+    params = [np.frombuffer(bytes.fromhex(p), b.dtype).reshape(b.shape).copy()
               for p, b in zip(msg['params'], base)]
     ok, hashes = c14.run_suffix(plan, msg['k'], bytes.fromhex(msg['blob']),
                                 params)
